@@ -13,30 +13,6 @@ from lib import btc, chains, datadir, ref, run, tracecheck
 FILECB = {'csvdump': ['blocks', 'transactions', 'tx_in', 'tx_out'], 'unspentcsvdump': ['unspent'], 'balances': ['balances']}
 
 
-def observed_heights(cb, r, blocks_by_hash, addr2h):
-    """heights the callback saw, derived from its real output"""
-    if cb == 'csvdump':
-        f = [n for n in r.files if n.startswith('blocks-')]
-        return [int(x) for x in chains.csv_col(r.files[f[0]], 1)] if f else None
-    if cb == 'unspentcsvdump':
-        f = [n for n in r.files if n.startswith('unspent-')]
-        if not f:
-            return None
-        rows = r.files[f[0]].decode().splitlines()[1:]
-        return sorted(int(x.split(';')[2]) for x in rows)
-    if cb == 'balances':
-        f = [n for n in r.files if n.startswith('balances-')]
-        if not f:
-            return None
-        rows = r.files[f[0]].decode().splitlines()[1:]
-        return sorted(addr2h[x.split(';')[0]] for x in rows)
-    if cb == 'opreturn':
-        return [int(m) for m in re.findall(r'^height: (\d+)\s+txid', chains.strip_log(r.out).decode('utf-8', 'replace'), re.M)]
-    if cb == 'simplestats':
-        s = chains.parse_stats(r.stdout)
-        return s.get('blocks')
-
-
 def genesis_rooted_chain(n, coin, order):
     """block 0 is the coin's real genesis block (so that --verify can be on), the rest standard blocks"""
     ghdr, gtxs = btc.genesis_block(coin)
@@ -57,6 +33,12 @@ def replay_one(w, obs, coin='bitcoin', h0=0):
     d.core_extras()
     d.write()
     dump = w.mk('out') if cb in FILECB else None
+    if dump and (T + s) % 2 == 0:
+        # leftovers of an interrupted longer run: blocks outside the range must not contribute through them either
+        junk = b''.join(ref.csv_rows(b, 90 + k, coin)['blocks'] for k, b in enumerate(blocks)) * 8
+        for n in FILECB[cb]:
+            with open(os.path.join(dump, n + '.csv.tmp'), 'wb') as f:
+                f.write(junk)
     r = run.run_parser(d.path, cb, dump=dump, coin=coin, start=s if s else None, end=None if e == -1 else e, verify=obs.get('verify', False))
     exp_h = obs['heights']
     chain = [(h, blocks[h]) for h in exp_h]
@@ -81,11 +63,11 @@ def replay_one(w, obs, coin='bitcoin', h0=0):
                 got = chains.csv_col(r.files.get(name, b''), 1) if f == 'blocks' else ''
                 probs.append('%s differs from the rows of heights %d..%d %s' % (name, s, exp_h[-1], got))
     elif cb == 'unspentcsvdump':
-        rows = set(r.files['unspent-%d-%d.csv' % (s, exp_h[-1])].decode().splitlines()[1:])
+        rows = set(r.files['unspent-%d-%d.csv' % (s, exp_h[-1])].decode('utf-8', 'replace').splitlines()[1:])
         if rows != ref.unspent_rows(ref.utxo_expected(chain, coin)):
             probs.append('unspent rows are not those of heights %s (row heights %s)' % (exp_h, sorted({x.split(';')[2] for x in rows})))
     elif cb == 'balances':
-        rows = set(r.files['balances-%d-%d.csv' % (s, exp_h[-1])].decode().splitlines()[1:])
+        rows = set(r.files['balances-%d-%d.csv' % (s, exp_h[-1])].decode('utf-8', 'replace').splitlines()[1:])
         if rows != ref.balances_rows(ref.utxo_expected(chain, coin)):
             probs.append('balances rows are not those of heights %s' % exp_h)
     elif cb == 'opreturn':
